@@ -34,11 +34,20 @@ structure Cfg where
   boundsCompressedSize : Bool
   /-- `ParseBlock` bounds the decoder's declared output length before decompressing -/
   boundsDecodedLen : Bool
+  /-- `ParseBlock` requires the counted entries to consume the whole decoded payload (so the
+      16-bit `EntryCount`, which no checksum covers, cannot be changed unnoticed) -/
+  parseConsumesAll : Bool
   /-- `ReadSwampName` falls back to `LoadIndex` (metadata entry) for non-V3 files -/
   v2Fallback : Bool
   /-- `createNewFile` refuses a swamp name longer than 65535 bytes -/
   rejectsLongName : Bool
   deriving DecidableEq, Repr
+
+/-- every check and guard present (the repaired code) -/
+def goodCfg : Cfg :=
+  { rejectsEmptyKey := true, rejectsLongKey := true, flushGe := true, flushAtCount := true,
+    deleteRemoves := true, validatesCrc := true, validatesULen := true, boundsCompressedSize := true,
+    boundsDecodedLen := true, parseConsumesAll := true, v2Fallback := true, rejectsLongName := true }
 
 /-- canonical error classes of the reader -/
 inductive Err where
@@ -120,6 +129,9 @@ def Encodable (e : Entry) : Prop :=
   0 < e.key.length ∧ e.key.length < 2 ^ 16 ∧ e.data.length < 2 ^ 32
 
 instance (e : Entry) : Decidable (Encodable e) := by unfold Encodable; infer_instance
+
+/-- total serialized size -/
+def sizeSum (es : List Entry) : Nat := (es.map Entry.size).sum
 
 /-- the loop of `ParseBlock`: `n` entries from `buf`; trailing bytes are ignored -/
 def parseEntries : Nat → Bytes → Except Err (List Entry)
